@@ -342,6 +342,7 @@ CLAUSE_NOTE = {
     "listing-disagrees": "the bucket listing shows other metadata than describing the bucket",
     "absent-bucket-listed": "a bucket that cannot be looked up is still listed",
     "batch-other-bucket-changed": "after a run of calls without intermediate reads, a bucket that none of them addressed reads back differently",
+    "batch-other-bucket-changed-by-last-call": "a run of calls without intermediate reads ended with a call addressed to another bucket; the control execution without that call holds what the reference model holds, with it a bucket it did not address does not",
     "batch-other-bucket-changed-by-out-of-contract-call": "a run of calls without intermediate reads ended with a call carrying an out-of-contract id; afterwards a bucket other than the one that call addressed does not hold what the earlier calls left there",
     "batch-outcome": "a call inside a run without intermediate reads raised (or failed to raise) against the documented outcome",
     "batch-precondition": "a call inside a run without intermediate reads is not enabled in the reference model",
@@ -403,6 +404,8 @@ def relevant(prop, op, clause, rec=None):
         kinds = {x["op"] for x in (rec or {}).get("ops", [])}
         if clause in ("batch-other-bucket-changed", "batch-other-bucket-changed-by-out-of-contract-call"):
             return prop in ("C04", "C02")
+        if clause == "batch-other-bucket-changed-by-last-call":
+            return prop == "C04"
         if prop == "C05":
             return bool(kinds & set(LIFECYCLE_OPS))
         if prop == "C02":
@@ -460,10 +463,19 @@ def run(prop, tier, seed, replay=None):
             behaviours.append((("F%d" if profile == "frame" else "r%d") % i, store.restrict(ops, profile == "frame" or (profile == "lifecycle" and p == "mixed"))))
         rep.notes["random_histories"] = nrand
     # ---- 3. run on the real backends
-    runs = store.run_batch(behaviours, seed, backends=backends)
+    if replay is not None and replay.get("probe"):
+        runs = store.run_probes([("P0", (replay["probe"][0], replay["probe"][1]))], seed, backends=backends)
+    else:
+        runs = store.run_batch(behaviours, seed, backends=backends)
     if replay is None:
         # ... and one implementation test per transition of the bounded model (no batching: every edge is a judged step)
         runs += store.run_batch(model_edges(rep, profile, tier, seed), seed + 7, backends=backends, batch_prob=0.0)
+        if profile == "frame":
+            # frame probes: writes without reads, then one call addressed to another bucket, with a control execution
+            probes = [("P%d" % i, store.random_probe(rnd)) for i in range(300 if tier == "quick" else 4000)]
+            pr = store.run_probes(probes, seed + 11, backends=backends)
+            rep.notes["frame_probes"] = {"generated": len(probes), "executed_with_control": len(pr)}
+            runs += pr
     if replay is None:
         # ... and the executions of the repository's own datastore tests, judged on full state instead of by their assertions
         recs, tail = repo_test_traces()
@@ -498,7 +510,8 @@ def run(prop, tier, seed, replay=None):
     rep.cov["traces_validated_against_impl"] = nreal
     rep.cov["evaluations"] = steps
     rep.cov["distinct_nontrivial"] = len({(r["backend"], repr(r["ops"])) for r in runs if len(r["trace"]) >= 3})
-    rep.cov["rule"] = ("behaviours = TLC simulation of AwStoreGen (depth %d) + random abstract histories, each run on memory/sqlite/peewee; "
+    rep.cov["rule"] = ("behaviours = TLC simulation of AwStoreGen (depth %d) + random abstract histories + one short history per transition of the bounded instance printed by AwStoreEdges "
+                       "(source state built, then the operation; see model_edges) + the repository's own datastore tests as recorded, each run on memory/sqlite/peewee; "
                        "evaluations = recorded calls judged (each with the full projected state of all buckets); a trace is non-trivial "
                        "when it has >= 3 recorded calls; distinct by (backend, operation list)" % depth)
     rep.notes.update(traces_per_backend=per_backend, recorded_ops=opcount, judge_wall_s=stats["wall_s"])
@@ -520,7 +533,7 @@ def run(prop, tier, seed, replay=None):
             sig = dict(backend=r["backend"], op=recd.get("op"), clause=clause, kind=recd.get("kind", ""))
             text = "%s: record %s (%s on bucket %s) rejected, clause %s: %s" % (
                 r["backend"], l, recd.get("op"), recd.get("b"), sig["clause"], CLAUSE_NOTE.get(sig["clause"], ""))
-            rep.violation(sig, text, dict(backend=r["backend"], ops=r["ops"], base=r["base"], scale=r["scale"], failing_record=l,
+            rep.violation(sig, text, dict(backend=r["backend"], ops=r["ops"], probe=r.get("probe"), base=r["base"], scale=r["scale"], failing_record=l,
                                           clause=sig["clause"], trace=r["trace"][:l] if l else r["trace"]))
     rep.notes["rejections_belonging_to_other_properties"] = skipped
     rep.assumptions += ["judge = TLC on spec/AwStoreTrace.tla (Step of AwStore + observed state); the Python harness only moves data",
